@@ -49,6 +49,7 @@ fn main() {
   }
   let code = match id.as_str() {
     "C04" => dispatch!(props::c04::C04),
+    "C07" => dispatch!(props::c07::C07),
     "C08" => dispatch!(props::c08::C08),
     "C15" => dispatch!(props::c15::C15),
     other => {
